@@ -50,6 +50,7 @@ _bs_prm = None  # [Rmax, order, odd]
 _bs = None  # [P[n]] — projected functions
 _ibs = None  # [rbin, wl, wu, cos^n] — arrays for image construction
 _ibs_prm = None  # [height, width, row] — geometry of _ibs
+_valid_key = None  # radii mask that _trf and _tri were made for
 _trf = None  # [Af[n]] — forward transform matrices
 _tri_full = None  # [Ai[n]] — inverse-transform matrices without mask and reg
 _tri_prm = None  # [reg] — regularization parameters
@@ -594,7 +595,7 @@ def get_bs_cached(Rmax, order=2, odd=False, direction='inverse', reg=None,
         (**Rmax** + 1) × (**Rmax** + 1) matrices of the Abel transform (forward
         or inverse) for each angular order
     """
-    global _bs_prm, _bs, _trf, _tri_full, _tri_prm, _tri
+    global _bs_prm, _bs, _valid_key, _trf, _tri_full, _tri_prm, _tri
 
     if basis_dir == '':
         basis_dir = abel.transform.get_basis_dir(make=True)
@@ -626,6 +627,14 @@ def get_bs_cached(Rmax, order=2, odd=False, direction='inverse', reg=None,
         invalid = None
     else:
         invalid = np.logical_not(valid)
+
+    valid_key = None if invalid is None else invalid.tobytes()
+    if valid_key != _valid_key:
+        # cached transforms were made for other valid radii
+        _trf = None
+        _tri_prm = None
+        _tri = None
+        _valid_key = valid_key
 
     def mask(A):
         # Zero rows for output radii without data (columns do not need to be
